@@ -26,6 +26,23 @@ open CdnsVerif.Spec.Cbor CdnsVerif.Model CdnsVerif.Model.Decoder
 
 theorem preamble_keys_match_rfc : Proofs.Keys.keysAgree = true := Proofs.Keys.generated_keys_eq_rfc
 
+open CdnsVerif.Model.Structs in
+/-- **The preamble schemas are what the source does** (translator T3, regenerated on every run by running the working tree's own
+    `write`/`read` functions): for each struct of the preamble tree the hand-written schema lists exactly the keys the writer
+    emits, in its order, each with the kind and width of the item written, and marks as required exactly the members without
+    which the reader throws; the reader keeps of an over-wide foreign value exactly that width; and the library's own
+    read-then-write of an all-members value reproduces the bytes. -/
+theorem preamble_schemas_match_source :
+    sourceRows "StorageHints" = some (rowsOf storageHints) ∧
+    sourceRows "StorageParameters" = some (rowsOf storageParameters) ∧
+    sourceRows "CollectionParameters" = some (rowsOf collectionParameters) ∧
+    sourceRows "BlockParameters" = some (rowsOf blockParameters) ∧
+    sourceRows "FilePreamble" = some (rowsOf filePreamble) ∧
+    (["StorageHints", "StorageParameters", "CollectionParameters", "BlockParameters", "FilePreamble"].all readerWidthsAgree) = true ∧
+    (Generated.schemaRoundTrips.all (·.2)) = true := by
+  repeat' apply And.intro
+  all_goals decide +kernel
+
 /-- what the encoder writes for an unsigned member is read back as the same number -/
 theorem uint_roundtrip (n : Nat) (h : n < 2 ^ 64) (rest : Bytes) :
     readUnsigned.run (C06.EncOp.spec (.u64 n) ++ rest) = .ok (n, rest) := by
